@@ -4,11 +4,15 @@ import json
 
 CLAIMED = {
  "C01": ("reference-model differential: proptest-driven byte-decoded tree/document generators + enumerated cross product of compliance expressions x documents", "4/C01"),
+ "C02": ("reference-model differential per built-in (direct calls over the whole declared domain, typed nested expressions) + validity predicates + recording custom function for per-element evaluation of expression references", "4/C02"),
  "C03": ("differential vs. an independent reference grammar over generated sentences, one-edit mutants, token soup, lexical corner cases", "4/C03"),
  "C04": ("construction oracle (tree -> text -> public Ast), reference-parser differential, parenthesisation metamorphic relation", "4/C04"),
+ "C05": ("crash/abort monitor: panic capture (overflow checks on) over all syntax generators, structure-aware index/slice extremes, adversarial built-in arguments; child-process depth ladder", "4/C05"),
+ "C06": ("complete enumeration of the (function x arity x argument-class^n) decision table with seeded representatives against the specification table in the reference model", "4/C06"),
  "C07": ("small-scope enumeration + random search against a 128-bit transcription of Python's slice rule", "4/C07"),
  "C09": ("round trip by construction (spell a value, evaluate, compare) and per-form reference decoder differential over arbitrary delimiter/backslash/escape juxtapositions", "4/C09"),
  "C10": ("generated value pairs in varied spellings against own deep-equality / numeric-order model and the algebraic laws", "4/C10"),
+ "C12": ("planted-fault construction oracle (kind + byte position known to the generator) and independently recomputed error-record invariants over generated failing compiles/searches", "4/C12"),
  "C11": ("metamorphic/self-consistency: compound expression vs. its separately evaluated parts, implementation only", "4/C11"),
 }
 NOT_YET = "check not built yet in this revision (work in progress; DESIGN.md section 4 has the plan)"
